@@ -1,5 +1,100 @@
-"""(stub)"""
+"""Contracts for fakesnow/checks.py and fakesnow/expr.py (C02 identifier equality, C03 'needs a database/schema', C04 key_command)."""
+from __future__ import annotations
+
+import z3
+
+from pyvc.sorts import CLS, I, S, V, mkb, mki, mks
+from pyvc.state import Val
+from pyvc.types import DictT, ListT, NoneType, Opt, TupleT
+from pyvc.world import Contract, SpecFun
 
 
 def install(w):
-    pass
+    from sqlglot import exp
+
+    E = exp.Expression
+
+    # N(id) = this if quoted else upper(this): Snowflake's identifier normalisation (property C02)
+    NORM = "(arg({x}, 'this') if arg({x}, 'quoted') else upper(arg({x}, 'this')))"
+    w.add_contract(
+        Contract(
+            "fakesnow.checks.equal",
+            params={"left": exp.Identifier, "right": exp.Identifier},
+            requires=["isinstance(arg(left, 'this'), str)", "isinstance(arg(right, 'this'), str)"],
+            result=bool,
+            modifies=[],
+            pure=True,
+            ensures={"C02.equal": "result == (" + NORM.format(x="left") + " == " + NORM.format(x="right") + ")"},
+            props=["C02", "C12"],
+        )
+    )
+
+    # ---- key_command: statement classification (C04).  KIND = args.get('kind')
+    KC = (
+        "(upper(key_of(expression)) + ' ' + upper(arg(expression, 'kind')) if isinstance(arg(expression, 'kind'), str) else "
+        "(upper(key_of(expression)) + ' ' + upper(node_name(arg(expression, 'kind'))) if isinstance(arg(expression, 'kind'), exp.Var) else "
+        "(upper(arg(expression, 'this')) if isinstance(expression, exp.Command) and isinstance(arg(expression, 'this'), str) else upper(key_of(expression)))))"
+    )
+    w.add_contract(
+        Contract(
+            "fakesnow.expr.key_command",
+            params={"expression": E},
+            requires=[],
+            result=str,
+            modifies=[],
+            pure=True,
+            ensures={
+                "C04.key_command.def": f"result == {KC}",
+                # the classification the DML / DDL branches of _execute rely on (spec table of the property)
+                "C04.key_command.dml": "implies(arg(expression, 'kind') is None, "
+                "(implies(cls_is(expression, exp.Insert), result == 'INSERT') and implies(cls_is(expression, exp.Update), result == 'UPDATE') "
+                "and implies(cls_is(expression, exp.Delete), result == 'DELETE') and implies(cls_is(expression, exp.Merge), result == 'MERGE') "
+                "and implies(cls_is(expression, exp.Select), result == 'SELECT')))",
+                "C04.key_command.ddl": "implies(isinstance(arg(expression, 'kind'), str), "
+                "(implies(cls_is(expression, exp.Create), result == 'CREATE ' + upper(arg(expression, 'kind'))) "
+                "and implies(cls_is(expression, exp.Drop), result == 'DROP ' + upper(arg(expression, 'kind'))) "
+                "and implies(cls_is(expression, exp.Alter), result == 'ALTER ' + upper(arg(expression, 'kind')))))",
+                "C04.key_command.exclusive": "implies(isinstance(arg(expression, 'kind'), str) and (cls_is(expression, exp.Create) or cls_is(expression, exp.Drop) or cls_is(expression, exp.Alter)), "
+                "result != 'INSERT' and result != 'UPDATE' and result != 'DELETE')",
+            },
+            props=["C04", "C03", "C07"],
+        )
+    )
+
+    # ---- is_unqualified_table_expression: "needs a current database / schema" for the first table of the statement
+    NODE = "find_table(expression)"
+    PK = f"arg(node_parent({NODE}), 'kind')"
+    STRKIND = f"({PK} and isinstance({PK}, str))"
+    USEKIND = f"(not {STRKIND} and key_of(node_parent({NODE})) == 'use' and {PK} and isinstance({PK}, exp.Var) and node_name({PK}))"
+    NOCAT = f"(not arg({NODE}, 'catalog'))"
+    NODB = f"(not arg({NODE}, 'db'))"
+    BAD = (
+        f"({NODE} is not None and (node_parent({NODE}) is None or "
+        f"({STRKIND} and upper({PK}) not in ('DATABASE', 'SCHEMA', 'TABLE', 'VIEW')) or "
+        f"({USEKIND} and upper(node_name({PK})) not in ('DATABASE', 'SCHEMA'))))"
+    )
+    NEEDS_DB = (
+        f"(False if {NODE} is None else (({NOCAT} if upper({PK}) != 'DATABASE' else False) if {STRKIND} else "
+        f"((False if upper(node_name({PK})) == 'DATABASE' else {NODB}) if {USEKIND} else {NOCAT})))"
+    )
+    NEEDS_SCHEMA = (
+        f"(False if {NODE} is None else (({NODB} if upper({PK}) in ('TABLE', 'VIEW') else False) if {STRKIND} else "
+        f"(False if {USEKIND} else {NODB})))"
+    )
+    w.unq_specs = {"bad": BAD, "needs_db": NEEDS_DB, "needs_schema": NEEDS_SCHEMA}
+    w.add_contract(
+        Contract(
+            "fakesnow.checks.is_unqualified_table_expression",
+            params={"expression": E},
+            requires=[],
+            result=TupleT(items=[bool, bool]),
+            modifies=[],
+            raises={AssertionError: {"when": BAD, "ensures": {}, "modifies": []}},
+            ensures={
+                "C03.needs.database": f"result[0] == {NEEDS_DB}",
+                "C03.needs.schema": f"result[1] == {NEEDS_SCHEMA}",
+                "C03.needs.bools": "isinstance(result[0], bool) and isinstance(result[1], bool)",
+            },
+            props=["C03", "C07"],
+        )
+    )
